@@ -615,3 +615,228 @@ pub unsafe extern "C" fn pthread_join(t: libc::pthread_t, retval: *mut *mut c_vo
     }
     real(t, retval)
 }
+
+// ---- clocks and sleeps of std ------------------------------------------------------------------
+// `std::time::Instant::now()` / `SystemTime::now()` are clock_gettime(2) and `std::thread::sleep`
+// is nanosleep(2) / clock_nanosleep(2), all reached through these libc symbols. On a simulated
+// thread the clocks read the simulator's discrete-event clock (monotonic clocks: a fixed base plus
+// simulated time; real-time clocks: the simulated wall clock, which the clock-jump fault skews)
+// and a sleep is a timer wait of the calling thread in the scheduler. A tree that starts to use
+// std's clocks or sleeps (a retry back-off, an idle time-out) therefore stays inside the
+// simulation: no real time passes, and the run stays a function of the seed.
+
+const MONO_BASE_NS: u64 = 1_000_000_000_000; // an arbitrary "uptime" at the start of a run
+
+unsafe fn sim_clock_ns(clk: libc::clockid_t) -> Option<u64> {
+    if !interesting() {
+        return None;
+    }
+    let (sim, _) = simrt::current()?;
+    match clk {
+        libc::CLOCK_MONOTONIC | libc::CLOCK_MONOTONIC_RAW | libc::CLOCK_MONOTONIC_COARSE | libc::CLOCK_BOOTTIME => Some(MONO_BASE_NS + sim.now_ns()),
+        libc::CLOCK_REALTIME | libc::CLOCK_REALTIME_COARSE => Some(sim.wall_ns().max(0) as u64),
+        _ => None,
+    }
+}
+
+#[no_mangle]
+pub unsafe extern "C" fn clock_gettime(clk: libc::clockid_t, ts: *mut libc::timespec) -> c_int {
+    if !ts.is_null() {
+        if let Some(ns) = sim_clock_ns(clk) {
+            (*ts).tv_sec = (ns / 1_000_000_000) as libc::time_t;
+            (*ts).tv_nsec = (ns % 1_000_000_000) as c_long;
+            simrt::sched::probe("std_clock_read_simulated");
+            return 0;
+        }
+    }
+    ret(raw(libc::syscall(libc::SYS_clock_gettime, clk, ts))) as c_int
+}
+
+unsafe fn sim_sleep(ns: u64) -> bool {
+    if !interesting() {
+        return false;
+    }
+    match simrt::current() {
+        Some((sim, me)) => {
+            sim.probe("std_sleep_simulated");
+            sim.sleep_thread(me, ns);
+            true
+        }
+        None => false,
+    }
+}
+
+unsafe fn timespec_ns(ts: *const libc::timespec) -> u64 {
+    ((*ts).tv_sec.max(0) as u64).saturating_mul(1_000_000_000).saturating_add((*ts).tv_nsec.max(0) as u64)
+}
+
+#[no_mangle]
+pub unsafe extern "C" fn nanosleep(req: *const libc::timespec, rem: *mut libc::timespec) -> c_int {
+    if !req.is_null() && sim_sleep(timespec_ns(req)) {
+        if !rem.is_null() {
+            (*rem).tv_sec = 0;
+            (*rem).tv_nsec = 0;
+        }
+        return 0;
+    }
+    ret(raw(libc::syscall(libc::SYS_nanosleep, req, rem))) as c_int
+}
+
+/// Unlike the other entry points this one returns the error number directly (POSIX).
+#[no_mangle]
+pub unsafe extern "C" fn clock_nanosleep(clk: libc::clockid_t, flags: c_int, req: *const libc::timespec, rem: *mut libc::timespec) -> c_int {
+    if !req.is_null() && interesting() {
+        let want = timespec_ns(req);
+        let ns = if flags & libc::TIMER_ABSTIME != 0 {
+            match sim_clock_ns(clk) {
+                Some(now) => Some(want.saturating_sub(now)),
+                None => None,
+            }
+        } else {
+            Some(want)
+        };
+        if let Some(ns) = ns {
+            if sim_sleep(ns) {
+                if !rem.is_null() && flags & libc::TIMER_ABSTIME == 0 {
+                    (*rem).tv_sec = 0;
+                    (*rem).tv_nsec = 0;
+                }
+                return 0;
+            }
+        }
+    }
+    let r = libc::syscall(libc::SYS_clock_nanosleep, clk, flags, req, rem);
+    if r < 0 {
+        *libc::__errno_location()
+    } else {
+        0
+    }
+}
+
+// ---- futex: the blocking primitives of std ---------------------------------------------------
+// std's Mutex, RwLock, Condvar, Once, Barrier, mpsc channels and thread::park block through
+// futex(2), which std reaches through libc's `syscall` entry point. Defining `syscall` here puts
+// that seam under the scheduler: when the code under test (running as a simulated thread that
+// holds the baton) waits on a futex word, the thread blocks in the scheduler until a simulated
+// FUTEX_WAKE on that word or until its time-out on the simulated clock; a wake makes simulated
+// waiters runnable and is a scheduling point. Uncontended operations never reach futex(2), so
+// nothing changes for them. The scheduler's own parking and lock acquisition are marked internal
+// and always go to the kernel, as does every other system call number.
+//
+// `syscall` is variadic in C; on x86-64 variadic integer arguments travel exactly like fixed
+// ones (rdi, rsi, rdx, rcx, r8, r9, then the stack), so a fixed seven-argument definition
+// receives them correctly.
+
+#[cfg(target_arch = "x86_64")]
+#[inline]
+unsafe fn raw_syscall6(num: c_long, a1: c_long, a2: c_long, a3: c_long, a4: c_long, a5: c_long, a6: c_long) -> c_long {
+    let r: c_long;
+    core::arch::asm!(
+        "syscall",
+        inlateout("rax") num => r,
+        in("rdi") a1,
+        in("rsi") a2,
+        in("rdx") a3,
+        in("r10") a4,
+        in("r8") a5,
+        in("r9") a6,
+        lateout("rcx") _,
+        lateout("r11") _,
+        options(nostack)
+    );
+    r
+}
+
+const FUTEX_WAIT: c_long = 0;
+const FUTEX_WAKE: c_long = 1;
+const FUTEX_WAIT_BITSET: c_long = 9;
+const FUTEX_WAKE_BITSET: c_long = 10;
+const FUTEX_CLOCK_REALTIME: c_long = 256;
+const FUTEX_CMD_MASK: c_long = !(128 | 256);
+
+extern "C" {
+    static __executable_start: u8;
+    static _end: u8;
+}
+
+/// Is `addr` inside the executable's own image (text, data, bss)? Futex words there belong to
+/// process-wide locks: std's own (`thread_info` of the stack-overflow handler, taken by every
+/// thread while it starts and ends), lazily initialised globals of libraries. Threads that are
+/// not under the scheduler's control (an OS thread that has not reached its entry hook yet, the
+/// tail of a finished one) take those too, so a wait on them is a real, short wait as it always
+/// was; it is never turned into a simulated one. Locks that the code under test creates live on
+/// the heap or on a stack.
+#[inline]
+unsafe fn in_executable_image(addr: usize) -> bool {
+    let lo = &__executable_start as *const u8 as usize;
+    let hi = &_end as *const u8 as usize;
+    addr >= lo && addr < hi
+}
+
+#[cfg(target_arch = "x86_64")]
+#[no_mangle]
+pub unsafe extern "C" fn syscall(num: c_long, a1: c_long, a2: c_long, a3: c_long, a4: c_long, a5: c_long, a6: c_long) -> c_long {
+    if num == libc::SYS_futex && !in_executable_image(a1 as usize) && interesting() && simrt::sched::futex_is_users() {
+        if let Some((sim, me)) = simrt::current() {
+            let addr = a1 as usize;
+            let cmd = a2 & FUTEX_CMD_MASK;
+            match cmd {
+                FUTEX_WAIT | FUTEX_WAIT_BITSET if sim.holds_baton(me) => {
+                    let ts = a4 as *const libc::timespec;
+                    let deadline = if ts.is_null() {
+                        None
+                    } else {
+                        let t = timespec_ns(ts);
+                        if cmd == FUTEX_WAIT {
+                            Some(sim.now_ns().saturating_add(t)) // relative
+                        } else {
+                            // absolute, on the clock the caller names
+                            let now_on_clock = if a2 & FUTEX_CLOCK_REALTIME != 0 { sim.wall_ns().max(0) as u64 } else { MONO_BASE_NS + sim.now_ns() };
+                            Some(sim.now_ns().saturating_add(t.saturating_sub(now_on_clock)))
+                        }
+                    };
+                    if std::env::var_os("BCSIM_FUTEX_TRACE").is_some() {
+                        eprintln!("FUTEX-WAIT t{} addr={:#x} val={} deadline={:?}\n{}", me, addr, a3 as u32, deadline, std::backtrace::Backtrace::force_capture());
+                    }
+                    return match sim.futex_wait(me, addr, a3 as u32, deadline) {
+                        None => {
+                            set_errno(libc::EAGAIN);
+                            -1
+                        }
+                        Some(true) => {
+                            sim.probe("std_futex_wait_simulated");
+                            set_errno(libc::ETIMEDOUT);
+                            -1
+                        }
+                        Some(false) => {
+                            sim.probe("std_futex_wait_simulated");
+                            0
+                        }
+                    };
+                }
+                FUTEX_WAKE | FUTEX_WAKE_BITSET => {
+                    let n = sim.futex_wake(addr, (a3.max(0)) as usize);
+                    // a thread that is really blocked in the kernel on this word (it was not a
+                    // simulated wait) is woken too
+                    let r = raw_syscall6(num, a1, a2, a3, a4, a5, a6);
+                    if n > 0 {
+                        sim.probe("std_futex_wake_simulated");
+                        if sim.holds_baton(me) {
+                            sim.yield_point(me, simrt::sched::Kind::LockRelease, true);
+                        }
+                    }
+                    let total = n as c_long + r.max(0);
+                    return total;
+                }
+                _ => {}
+            }
+        }
+    }
+    let r = raw_syscall6(num, a1, a2, a3, a4, a5, a6);
+    if (-4095..0).contains(&r) {
+        set_errno((-r) as i32);
+        -1
+    } else {
+        r
+    }
+}
